@@ -83,6 +83,20 @@ Theorem C06_ipv6_match_is_delimited :
   (eol s j = true \/ exists x, nth_error s j = Some x /\ in_cset x cs9 = true).
 Proof. exact Ipv4Token.ipv6_match_is_delimited. Qed.
 
+(* The other half for IPv4: a standalone dotted quad IS replaced, as a whole.  If a text of the shape above (four parts of 0* followed by d | dd | 1dd | 20d-24d |
+   250-255, separated by dots) stands at position i, preceded by the line start or a delimiter and followed by the line end or a delimiter, then the engine's
+   match at i -- its FIRST choice among all the ways the backtracking matcher can succeed, which is what re.sub replaces -- exists and ends exactly at the end of
+   the token.  (lib/RxLang.lang_ms: for anchor-free patterns every occurrence of a string of the language is among the successes the engine lists; the engine's
+   choice then follows from the whole-token theorem above.)  Together with the theorems above: at a token start the pattern matches iff the token is a valid
+   dotted quad, and then it matches all of it. *)
+Theorem C06_a_standalone_dotted_quad_is_matched_as_a_whole :
+  forall (s t : list chr) (i : nat),
+  Ipv4Token.dotted_quad t -> RxLang.occ s t i -> (i <= length s)%nat ->
+  (i = 0%nat \/ ((1 <= i)%nat /\ exists x, nth_error s (i - 1) = Some x /\ in_cset x Ipv4Token.ENC = true)) ->
+  (eol s (i + length t) = true \/ exists x, nth_error s (i + length t) = Some x /\ in_cset x Ipv4Token.ENC = true) ->
+  exists c', match_at s IPV4_RX i = Some ((i + length t)%nat, c').
+Proof. exact Ipv4Token.ipv4_engine_replaces_the_whole_token. Qed.
+
 Theorem C06_dotted_quad_parts_are_numerals_up_to_255 :
   forall t : list chr, Ipv4Token.octet_core t -> (Ipv4Token.dec_value t <= 255)%N /\ Forall Ipv4Token.dig t.
 Proof. exact Ipv4Token.octet_core_value. Qed.
@@ -97,3 +111,4 @@ Print Assumptions C06_ipv4_search_finds_only_standalone_dotted_quads.
 Print Assumptions C06_dotted_quad_parts_are_numerals_up_to_255.
 Print Assumptions C06_ipv4_match_is_a_whole_token.
 Print Assumptions C06_ipv6_match_is_delimited.
+Print Assumptions C06_a_standalone_dotted_quad_is_matched_as_a_whole.
